@@ -4,68 +4,70 @@ Model: `IrVerif/Model/Kernel.lean`.  Every public call is `validate ; mutate`, a
 the model's `step` returns the very world it was given whenever its outcome is `raised` — every field of
 every object, reference counters, initializer keys and order, name-authority counters and name sets.
 -/
-import IrVerif.Lemmas.KernelOps
+import IrVerif.Lemmas.KernelFaithful
 namespace IrVerif.Kernel
-
-theorem guardOp_atomic (bad : Bool) (kind : String) (w w' : World) (k : String)
-    (h : (guardOp bad kind w w').2 = .raised k) : (guardOp bad kind w w').1 = w := by
-  unfold guardOp at *; split <;> simp_all
 
 theorem ioMut_atomic (w : World) (g : Nat) (kd : IOKind) (m : IOMut) (k : String)
     (h : (ioMut w g kd m).2 = .raised k) : (ioMut w g kd m).1 = w := by
-  cases m <;> simp only [ioMut] at h ⊢
+  have hl := ioMut_late w g kd m
+  cases m <;> simp only [ioMut] at h hl ⊢
   case setSlice start stop step vs =>
     split
     · rfl
-    · rename_i ix hix; simp only [hix] at h; exact guardOp_atomic _ _ _ _ _ h
+    · rename_i ix hix; simp only [hix] at h hl; exact guardOp_atomic_of_late _ _ _ _ _ hl h
   case delSlice start stop step =>
     split
     · rfl
-    · rename_i ix hix; simp only [hix] at h; cases h
+    · rename_i ix hix; simp only [hix] at h hl; exact guardOp_atomic_of_late _ _ _ _ _ hl h
   all_goals first
-    | exact guardOp_atomic _ _ _ _ _ h
-    | cases h
-
-theorem initMut_atomic (w : World) (g : Nat) (m : InitMut) (k : String)
-    (h : (initMut w g m).2 = .raised k) : (initMut w g m).1 = w := by
-  cases m <;> simp only [initMut] at h ⊢
-  all_goals first
-    | exact guardOp_atomic _ _ _ _ _ h
-    | cases h
-
-/-- **C06_atomic**: when an operation raises, the whole world is equal to the world before the
-call.  (`WF w` is not even needed: the model validates before it mutates; the hypothesis is kept
-because the statement is about reachable states.) -/
-theorem C06_atomic (w : World) (op : Op) (k : String) (_hw : WF w)
-    (h : (step w op).2 = .raised k) : (step w op).1 = w := by
-  cases op <;> simp only [step] at h ⊢
-  case io g kd m => exact ioMut_atomic _ _ _ _ _ h
-  case init g m => exact initMut_atomic _ _ _ _ h
-  all_goals first
-    | exact guardOp_atomic _ _ _ _ _ h
-    | cases h
+    | exact guardOp_atomic_of_late _ _ _ _ _ hl h
     | rfl
 
-/-- `rename`-style bulk update of the initializer mapping: all or nothing -/
-theorem C06_update_atomic (w : World) (g : Nat) (kvs : List (String × Nat)) (k : String)
-    (h : (initUpdate w g kvs).2 = .raised k) : (initUpdate w g kvs).1 = w :=
-  guardOp_atomic _ _ _ _ _ h
+theorem initMut_atomic (w : World) (hw : WF w) (g : Nat) (m : InitMut) (k : String)
+    (h : (initMut w g m).2 = .raised k) : (initMut w g m).1 = w := by
+  have hl := initMut_late w hw g m
+  cases m <;> simp only [initMut] at h hl ⊢
+  all_goals exact guardOp_atomic_of_late _ _ _ _ _ hl h
 
-/-- **C06_rename_values_atomic**: `rename_values` is all or nothing for any assignment (swaps,
-cycles, repeated values, mixed initializers / plain values) -/
-theorem C06_rename_values_atomic (w : World) (vs : List Nat) (names : List String) (k : String)
+/-- **C06_atomic**: on a well-formed world, a call that raises leaves the whole world equal to the
+world before the call (every field of every object, reference counters, initializer keys and order,
+name-authority counters and name sets).  Not by definition: a call also raises when a check fails
+after the first write (`guardOp`), and then returns the partially written world; the theorem says this
+never happens. -/
+theorem C06_atomic (w : World) (op : Op) (k : String) (hw : WF w)
+    (h : (step w op).2 = .raised k) : (step w op).1 = w := by
+  have hl := step_late w hw op
+  cases op <;> simp only [step] at h hl ⊢
+  case io g kd m => exact ioMut_atomic _ _ _ _ _ h
+  case init g m => exact initMut_atomic _ hw _ _ _ h
+  case newNode => exact guardOp_atomic_of_late _ _ _ _ _ hl h
+  case newGraph => exact guardOp_atomic_of_late _ _ _ _ _ hl h
+  case rauw => exact guardOp_atomic_of_late _ _ _ _ _ hl h
+  case setName => exact guardOp_atomic_of_late _ _ _ _ _ hl h
+  all_goals exact guardOp_atomic_of_late _ _ _ _ _ hl h
+
+/-- **C06_rename_values_atomic**: `rename_values` is all or nothing for any assignment (swaps, cycles,
+repeated values, mixed initializers / plain values, tensors that refuse their new name).  The model
+runs the three phases of the code — take the renamed initializers out of their mappings, rename, put
+them back — with their own checks; the theorem says that after the up-front validation none of these
+checks fails. -/
+theorem C06_rename_values_atomic (w : World) (hw : WF w) (vs : List Nat) (names : List String) (k : String)
     (h : (renameValues w vs names).2 = .raised k) : (renameValues w vs names).1 = w := by
-  unfold renameValues at h ⊢
+  have hl := renameValues_late w hw vs names
+  unfold renameValues at h hl ⊢
   split
   · rfl
-  · rename_i hl; simp only [hl, if_false] at h
+  · rename_i hlen
+    simp only [hlen, if_false] at h hl
     split
     · rfl
-    · rename_i pairs hp; simp only [hp] at h; exact guardOp_atomic _ _ _ _ _ h
+    · rename_i pairs hp
+      simp only [hp] at h hl
+      exact guardOp_atomic_of_late _ _ _ _ _ hl h
 
-/-- a reported cycle changes nothing -/
-theorem C06_sort_cycle_no_change (w : World) : (step w .sortCycle).1 = w := rfl
-
+/-- the hypothesis is needed: on an ill-formed world a check does fail after a write -/
+example : ∃ w op k, (step w op).2 = .raised k ∧ (step w op).1 ≠ w :=
+  ⟨{ vals := [{ uses := [(0, 0)] }] }, .rauw 0 0 false, "late-check", by decide⟩
 
 /-! ### non-vacuity: every operation that can raise does raise on a reachable world -/
 
